@@ -91,7 +91,7 @@ RemoveAllOf(seq, x) == SelectSeq(seq, LAMBDA y : y # x)
 (* Setter kinds: the effect of Set<K>(a, b) on one logger's configuration.  The result is a SET
    of configurations: a singleton except for removal from a list holding the writer twice,
    where the documentation does not say whether one or all occurrences go.                    *)
-SetterKinds == {"JSONMode", "ColorMode", "UTCMode", "TimeFormat", "Level", "Attrs", "Attrs1", "SetKV", "Attrs0", "Skip", "CtxKeys",
+SetterKinds == {"JSONMode", "ColorMode", "UTCMode", "TimeFormat", "Level", "Attrs", "Attrs1", "SetKV", "Attrs0", "Skip", "CtxKeys", "CtxReset",
                 "Writer", "AddWriter", "RemoveWriter", "ErrorWriter", "AddErrorWriter",
                 "RemoveErrorWriter", "AddLevelWriter", "RemoveLevelWriter", "ResetLevelWriter",
                 "ResetLevelWriters", "ResetWriters"}
@@ -113,6 +113,7 @@ ApplyK(c, k, a, b) ==
       [] k = "Attrs0" -> {c}
       [] k = "Skip" -> {[c EXCEPT !.skip = a]}
       [] k = "CtxKeys" -> {[c EXCEPT !.ctx = Append(c.ctx, a)]}
+      [] k = "CtxReset" -> {[c EXCEPT !.ctx = <<>>]}          \* ResetContextKeys
       [] k = "Writer" -> {[c EXCEPT !.wn = <<a>>]}
       [] k = "AddWriter" -> {[c EXCEPT !.wn = Append(c.wn, a)]}
       [] k = "RemoveWriter" -> {[c EXCEPT !.wn = RemoveOne(c.wn, a)], [c EXCEPT !.wn = RemoveAllOf(c.wn, a)]}
@@ -338,6 +339,9 @@ EachOf(s, l) ==   \* Each: every logger of the subtree exactly once, with its de
     LET sub == Subtree(s, l)
         ids == SetToSortSeq(sub, <)
     IN [i \in 1..Len(ids) |-> <<ids[i], DepthOf(s, ids[i]) - DepthOf(s, l)>>]
+
+\* DumpSubloggers: one line per logger of the subtree, indented by its depth below l
+DumpDepths(s, l) == LET e == EachOf(s, l) IN [x \in 1..Len(e) |-> e[x][2]]
 
 SubCands(s, l, nm) == {m \in Subtree(s, l) : s.name[m] = nm}
 
